@@ -49,6 +49,9 @@ var FedCorpus = []corpusCase{
 	{"D48-join-under-narrowing-fragment-list", fixedIn(`{ pets { ... on Cat { ... on Cat { toys } } } }`), "elements the fragment does not apply to carry no id"},
 	{"D48-join-under-narrowing-fragment-object", fixedIn(`{ user(id: "u2") { pet { ... on Cat { ... on Cat { toys } } } } }`), ""},
 	{"D48-join-under-skipped-fragment", fixedIn(`{ me { friends { ... on User @skip(if: true) { ...F6 } } } } fragment F6 on User { nick }`), ""},
+	{"D49-mutation-duplicated-by-nested-fragments", fixedIn(`mutation { bump(id: "u1") { firstName } ... on Mutation { ... on Mutation { bump(id: "u1") { firstName } } } }`), "two root requests, the mutation runs twice"},
+	{"D49-root-field-twice-through-fragments", fixedIn(`{ ...F0 } fragment F0 on Query { ...F1 allPhotos { __typename } } fragment F1 on Query { allPhotos { url } }`), ""},
+	{"D50-repeated-field-duplicate-step", fixedIn(`{ me { lastName } me { lastName } }`), "two identical dependent steps"},
 	{"D26-inline-priority", withPrio(fixedIn(`{ me { ... on User { lastName } } }`), "C"), "planner ping-pong"},
 	{"basic-nested", fixedIn(`{ allUsers { firstName photos { url likes owner { firstName } } } }`), ""},
 	{"basic-node", fixedIn(`{ node(id: "u1") { ... on User { firstName lastName } } }`), ""},
